@@ -344,6 +344,7 @@ func isDelimiter(v ssa.Value, delim string) bool {
 func Tenant(w *load.World, c *core.Collector) {
 	shardRoot(w, c)
 	headerVerbatim(w, c)
+	collectionLiteralsScoped(w, c)
 	props := []string{"C16"}
 	delim := "/"
 	if p := w.ByPath[clusterPkg]; p != nil {
@@ -1703,4 +1704,55 @@ func rangedTable(elem ssa.Value) (*ssa.Alloc, *ssa.BasicBlock) {
 		return nil, nil
 	}
 	return table, phi.Block()
+}
+
+// collectionLiteralsScoped: a models.Collection built by hand (a literal that names its Id) also
+// names its UserId. The shard directory and the record key are <user>/<collection>; a literal
+// without the user resolves to userCollections/<collection id>/…, which is the directory of the
+// tenant whose user id equals that collection id.
+func collectionLiteralsScoped(w *load.World, c *core.Collector) {
+	props := []string{"C16"}
+	n := 0
+	perFn := map[*ssa.Function]int{}
+	for _, f := range w.Fns {
+		if !load.InMod(f) || f.Synthetic != "" {
+			continue
+		}
+		pkg := load.PkgPath(f)
+		if !(strings.HasSuffix(pkg, "/cluster") || strings.Contains(pkg, "/httpapi")) {
+			continue
+		}
+		for _, b := range f.Blocks {
+			for _, in := range b.Instrs {
+				al, ok := in.(*ssa.Alloc)
+				if !ok || al.Comment != "complit" || ssax.TypeName(al.Type()) != "models.Collection" {
+					continue
+				}
+				set := map[string]bool{}
+				for _, r := range *al.Referrers() {
+					if fa, ok := r.(*ssa.FieldAddr); ok {
+						for _, rr := range *fa.Referrers() {
+							if st, ok := rr.(*ssa.Store); ok && st.Addr == ssa.Value(fa) {
+								set[ssax.StructOf(al.Type()).Field(fa.Field).Name()] = true
+							}
+						}
+					}
+				}
+				if !set["Id"] {
+					continue
+				}
+				n++
+				perFn[f]++
+				key := fmt.Sprintf("collection-literal:%s#%d", load.FnKey(f), perFn[f])
+				if set["UserId"] {
+					c.Add("TENANT", key, core.OK, w.At(in), "", props...)
+				} else {
+					c.Add("TENANT", key, core.Violation, w.At(in), "a collection is built with its id and without its user id: paths and keys derived from it are userCollections/<collection id>/… — another tenant's directory when that tenant's user id equals the collection id (deleting this collection's shards removes all of theirs)", props...)
+				}
+			}
+		}
+	}
+	if n < 1 {
+		c.Add("TENANT", "collection-literal:none", core.OK, "", "no hand-built collection in the cluster and http packages", props...)
+	}
 }
